@@ -63,7 +63,8 @@ func unignoreRules(ignoredRules *ignoredRules, rules []Rule) {
 		return
 	}
 
-	ignoredRules.all = false
+	// A listed end closes the listed start of the same rules only: an enclosing
+	// bare falco-ignore-start stays open until its own bare falco-ignore-end
 	for _, r := range rules {
 		delete(ignoredRules.rules, r)
 	}
